@@ -187,7 +187,9 @@ def peek_cases(rng, n):
         consumed = rng.choice([nl - 1, nl - 1, nl - pb, max(0, nl - pb - 1), rng.randint(0, nl)])
         lines += ["R t1 1"] * consumed
         lines += [rng.choice(["R t1 0", "BR t1 %d 0 -" % (s + T.H), "BR t1 1 0 -"])] * rng.choice([1, 3, 5])
-        lines += ["BR t2 409600 1 -"] * 3
+        # the other topic is consumed and polled past with read_next (batch reads do not retire blocks)
+        n2 = sum(1 for l in lines if l.startswith("A t2 "))
+        lines += (["R t2 1"] * (n2 + 2)) if rng.random() < 0.8 else (["BR t2 409600 1 -"] * 3)
         lines += ["SLEEP 40", "TRK", "LS", rng.choice(["RESTART", "RESTART", "REOPEN"])]
         for t in ("t1", "t2"):
             lines += ["BR %s 409600 1 -" % t] * 4 + ["R %s 1" % t, "C %s" % t]
@@ -213,7 +215,8 @@ def rollover_cases(rng, n):
         run = "t1"
         for _ in range(rng.choice([7, 8, 10, 16])):   # fills the rest of that file and rolls on
             lines.append("A %s %d 3000" % (run, pid)); pid += 1
-        lines += ["BR %s 409600 1 -" % run] * 4 + ["R %s 1" % run]
+        nrun = sum(1 for l in lines if l.startswith("A %s " % run))
+        lines += (["R %s 1" % run] * (nrun + 2)) if rng.random() < 0.8 else (["BR %s 409600 1 -" % run] * 4 + ["R %s 1" % run])
         if rng.random() < 0.5:
             for i in range(2, nt + 1):
                 lines.append("R t%d 1" % i)
